@@ -228,15 +228,28 @@ func c01RunInner(w *explore.Worker, c c01Case) {
 		}
 	case "User":
 		name := string(pat([]int{0, 1, 2, 3, 254, 255, 505, 600}[a%8], ch))
-		for _, iconLen := range []int{2, 4} {
+		for _, iconLen := range []int{2, 4, 0, 1, 3} {
+			// the icon is whatever bytes the client put into its icon field (clients send 2 or 4, a field may
+			// also be absent or odd-sized): the record always carries it as a 16-bit number
 			icon := []byte{0, 7}
 			flags := []byte{0, byte(b)}
-			if iconLen == 4 {
+			switch iconLen {
+			case 4:
 				icon = []byte{0, 0, 0, 7}
 				flags = []byte{0, 0, 0, byte(b)}
+			case 0:
+				icon = nil
+			case 1:
+				icon = []byte{7}
+			case 3:
+				icon = []byte{0, 0, 7}
 			}
 			u := hotline.User{ID: [2]byte{byte(cc), byte(d)}, Icon: icon, Flags: flags, Name: name}
-			want := ref.EncodeUserInfo(ref.UserInfo{ID: uint16(cc)<<8 | uint16(byte(d)), Icon: 7, Flags: uint16(byte(b)), Name: name})
+			iconVal := uint16(7)
+			if iconLen == 0 {
+				iconVal = 0
+			}
+			want := ref.EncodeUserInfo(ref.UserInfo{ID: uint16(cc)<<8 | uint16(byte(d)), Icon: iconVal, Flags: uint16(byte(b)), Name: name})
 			cs := c
 			cs.Spec += fmt.Sprintf(" icon%d", iconLen)
 			drainP(w, cs, u, want)
